@@ -4,6 +4,7 @@ import sandboxexec_check as sc
 
 THEOREMS = [
     "Pedal.SandboxExec.c04_ladder_contains",
+    "Pedal.SandboxExec.c04_import_transparent",
     "Pedal.SandboxExec.c04_contained",
     "Pedal.SandboxExec.c04_exception_available",
     "Pedal.SandboxExec.c04_exactly_one_runtime_feedback",
@@ -27,6 +28,9 @@ NOTES = [
     "hazards (6 probe programs through run()) are PROBED on the tree under test and enter the theorems as tables",
     "EXCEPTION_FF_MAP lookup is by exact class, modelled by class NAME: generated programs never define a class "
     "named like a builtin exception",
+    "a failure inside an imported student file (Sandbox._import, no handlers of its own - c04_import_transparent, from "
+    "its AST) is the termination of the importing execution with the imported file's frames innermost; the mocked "
+    "__import__ that reaches _import is exercised, not modelled",
     "c04_history imports C05's stack invariant as the hypothesis StacksRestored (discharged in PedalProofs/C05.lean)",
     "section line offsets (Submission.line_offsets) are not modelled - C17 covers them; histories use no sections",
     "time limits / threaded execution are C14's: every execution here is threaded=False",
